@@ -299,7 +299,7 @@ def machine_stream(ctx, worlds, runs, deps_built=True):
     ctx.cov.setdefault("input_distribution", {})["sim_run_status"] = statuses
     ctx.cov["input_distribution"]["sim_runs_not_fed_to_machine"] = skipped
     mism = cached_model_stream(ctx, "S-sim", HEADER, "world * list ev", "(fun p => observe (fst p) (snd p))", cases, 12,
-                               ["Model/Sim.v", "Gen/Src_Task.v", "Gen/Src_Event.v", "Model/Val.v"])
+                               ["Model/Sim.v", "Gen/Src_Task.v", "Gen/Src_TaskGraph.v", "Gen/Src_Event.v", "Model/Val.v"])
     return [(idx[k], mv, cases[k][1]) for k, mv in mism], len(cases)
 
 
@@ -446,7 +446,7 @@ def machine_q_stream(ctx, worlds, runs):
         cases.append(("(%s, %s)" % (gworld, gevs), exp, i))
         idx.append(i)
     mism = cached_model_stream(ctx, "S-simq", HEADER_Q, "world * list qev", "(fun p => observe_q (fst p) (snd p))", cases, 10,
-                               ["Model/Sim.v", "Model/SimQ.v", "Model/EventQ.v", "Gen/Src_Task.v", "Gen/Src_Event.v", "Model/Val.v"])
+                               ["Model/Sim.v", "Model/SimQ.v", "Model/EventQ.v", "Gen/Src_Task.v", "Gen/Src_TaskGraph.v", "Gen/Src_Event.v", "Model/Val.v"])
     return [(idx[k], mv, cases[k][1]) for k, mv in mism], len(cases)
 
 
@@ -547,7 +547,7 @@ def rows_stream(ctx, worlds, runs, outside=lambda w: False):
     ctx.cov["input_distribution"]["rows_compared_by_kind"] = {ROW_KINDS[k]: v for k, v in sorted(kinds.items())}
     mism = cached_model_stream(ctx, "S-rows", HEADER_ROWS, "world * layout * list ev",
                                "(fun p => observe_rows (fst (fst p)) (snd (fst p)) (snd p))", cases, 12,
-                               ["Model/Sim.v", "Model/SimRows.v", "Gen/Src_Task.v", "Gen/Src_Event.v", "Model/Val.v"])
+                               ["Model/Sim.v", "Model/SimRows.v", "Gen/Src_Task.v", "Gen/Src_TaskGraph.v", "Gen/Src_Event.v", "Model/Val.v"])
     out = []
     for k, mv in mism:
         exp = cases[k][1]
